@@ -184,7 +184,10 @@ impl CommitProof {
                 self.root().into(),
                 &self.indices,
                 leaves_to_prove.as_slice(),
-                leaves.len(),
+                // The proof was computed for a tree of `self.length`
+                // leaves, the replica being checked may be shorter
+                // or longer than that
+                self.length,
             ),
             leaves_to_prove,
         )
